@@ -26,17 +26,23 @@ def build(case):
     meta = case["meta"]
     tref = None if meta["tref"] < 0 else Time(T0 + meta["tref"], format="mjd", scale="tcb")
     s = JokerSamples(t_ref=tref, poly_trend=meta["poly"], n_offsets=meta["noff"])
-    s["P"] = (np.array([8.0 * r["p"] for r in rows]) * u.day).to(pu)
-    s["e"] = np.array([r["id"] / 1000.0 for r in rows])
-    s["omega"] = (np.array([r["w"] * np.pi / 4 for r in rows]) * u.rad).to(au)
-    s["M0"] = (np.array([r["m"] * np.pi / 4 for r in rows]) * u.rad).to(au)
-    s["s"] = np.zeros(len(rows)) * ku
-    s["K"] = (np.array([float(r["K"]) for r in rows]) * u.km / u.s).to(ku)
-    s["v0"] = np.zeros(len(rows)) * ku
+    cols = {}
+    cols["P"] = (np.array([8.0 * r["p"] for r in rows]) * u.day).to(pu)
+    cols["e"] = np.array([r["id"] / 1000.0 for r in rows])
+    cols["omega"] = (np.array([r["w"] * np.pi / 4 for r in rows]) * u.rad).to(au)
+    cols["M0"] = (np.array([r["m"] * np.pi / 4 for r in rows]) * u.rad).to(au)
+    cols["s"] = np.zeros(len(rows)) * ku
+    cols["K"] = (np.array([float(r["K"]) for r in rows]) * u.km / u.s).to(ku)
+    cols["v0"] = np.zeros(len(rows)) * ku
     if meta["poly"] >= 2:
-        s["v1"] = np.zeros(len(rows)) * ku / u.day
+        cols["v1"] = np.zeros(len(rows)) * ku / u.day
     if meta["noff"] >= 1:
-        s["dv0_1"] = np.zeros(len(rows)) * ku
+        cols["dv0_1"] = np.zeros(len(rows)) * ku
+    order = list(cols)
+    if case.get("colorder"):      # columns filled in a non-canonical order
+        random.Random(case["colorder"]).shuffle(order)
+    for k in order:
+        s[k] = cols[k]
     if case.get("lnp"):
         s["ln_prior"] = -np.arange(len(rows), dtype=float)
     return s
@@ -120,32 +126,43 @@ def execute(case):
             e["raised"] = True
             e["exc"] = repr(ex_)[:160]
         ev.append(e)
-    # pack -> unpack
-    for variant in ("own_units", "internal"):
+    # pack -> unpack: whatever order names / units are given in, every NAMED column must come back with its unit and values
+    def by_name(t):
+        names = sorted(t.par_names)
+        uu = _units(t)
+        return names, [uu[list(t.par_names).index(nm)] for nm in names], [_hashes(t, [nm]) for nm in names]
+    for variant in ("own_units", "internal", "custom_order"):
         e = {"ev": "Pack", "variant": variant, "raised": False, "names": [], "units": [], "hashes": [], "names2": [], "units2": [], "hashes2": []}
         try:
-            if variant == "own_units":
-                src = s
-                own = {nm: (getattr(s.tbl[nm], "unit", None) or u.one) for nm in s.par_names}
-                packed, units = src.pack(units=own, nonlinear_only=False)
-            else:
+            if variant == "internal":
                 c2 = dict(case); c2["uv"] = ("km/s", "rad", "d")
                 src = build(c2)
                 packed, units = src.pack(nonlinear_only=False)
+            else:
+                src = s
+                names = list(s.par_names)
+                own = {nm: (getattr(s.tbl[nm], "unit", None) or u.one) for nm in names}
+                if variant == "custom_order":
+                    rnd.shuffle(names)
+                    keys = list(own)
+                    rnd.shuffle(keys)
+                    own = {k_: own[k_] for k_ in keys}
+                    packed, units = src.pack(units=own, names=names)
+                else:
+                    packed, units = src.pack(units=own, nonlinear_only=False)
             s2 = JokerSamples.unpack(packed, units, t_ref=src.t_ref, poly_trend=src.poly_trend, n_offsets=src.n_offsets)
-            e["names"], e["units"], e["hashes"] = list(src.par_names), _units(src), _hashes(src, src.par_names)
-            e["names2"], e["units2"] = list(s2.par_names), _units(s2)
-            e["hashes2"] = _hashes(s2, s2.par_names) if list(s2.par_names) == list(src.par_names) else []
+            e["names"], e["units"], e["hashes"] = by_name(src)
+            e["names2"], e["units2"], e["hashes2"] = by_name(s2)
         except Exception as ex_:
             e["raised"] = True
             e["exc"] = repr(ex_)[:160]
         ev.append(e)
     # indexing
-    keys = [("int", rnd.randrange(n)), ("slice", (rnd.randrange(n), None, 1)), ("mask", [rnd.random() < 0.6 for _ in range(n)]),
+    keys = [("int", rnd.randrange(n)), ("int", -1), ("int", -rnd.randint(1, n)), ("slice", (rnd.randrange(n), None, 1)), ("mask", [rnd.random() < 0.6 for _ in range(n)]),
             ("array", [rnd.randrange(n) for _ in range(rnd.randint(1, 4))]), ("slice", (None, None, 2))]
     for kind, arg in keys:
         if kind == "int":
-            key, sel = int(arg), [arg + 1]
+            key, sel = (int(arg) if rnd.random() < 0.7 else np.int64(arg)), [(arg % n) + 1]
         elif kind == "slice":
             key = slice(*arg); sel = [i + 1 for i in range(n)[key]]
         elif kind == "mask":
@@ -215,14 +232,15 @@ def run(ctx, selftest=False):
     cases = []
     for k in idx[: (500 if quick else len(idx))]:
         rows = [dict(x) for x in allt[k][1]]
-        cases.append({"id": "mc-%d" % k, "rows": rows, "uv": UV[k % 4], "meta": metas[(k // 4) % 4], "phases": [0, 3, 6], "seed": k, "lnp": k % 3 == 0})
+        cases.append({"id": "mc-%d" % k, "rows": rows, "uv": UV[k % 4], "meta": metas[(k // 4) % 4], "phases": [0, 3, 6], "seed": k, "lnp": k % 3 == 0,
+                      "colorder": (k if k % 2 else 0)})
     ctx.notes["tables_enumerated_by_tlc"] = len(allt)
     ctx.exhaustive = not quick
     for j in range(150 if quick else 2000):
         n = rnd.choice([1, 2, 3, 5, 10, rnd.randint(2, 300)])
         rows = [{"id": i + 1, "K": rnd.randint(-3, 3), "w": rnd.randint(-9, 17), "m": rnd.randint(-9, 17), "p": rnd.randint(1, 6)} for i in range(n)]
         cases.append({"id": "rnd-%d" % j, "rows": rows, "uv": rnd.choice(UV), "meta": rnd.choice(metas), "phases": [rnd.randint(-8, 15), rnd.randint(0, 7)],
-                      "seed": rnd.randint(0, 10**6), "lnp": rnd.random() < 0.3})
+                      "seed": rnd.randint(0, 10**6), "lnp": rnd.random() < 0.3, "colorder": rnd.choice([0, rnd.randint(1, 999)])})
     traces = core.pmap(execute, cases, chunksize=16)
     for c, t in zip(cases, traces):
         ctx.count()
